@@ -124,14 +124,16 @@ Definition write_subword_shape_wrapper_fn (command : string) (id shape_id : N) (
 Definition write_subword_fn (command : string) (needs_cmd needs_star : bool) : string :=
   let env := [("command", command); ("MATCH_FN_NAME", match_fn_name_bash)] in
   sconcat [ fmtln write_subword_fn_0 env;
-            (if needs_cmd then fmt write_subword_fn_1 env else EmptyString);
-            (if needs_star then fmt write_subword_fn_2 env else EmptyString);
-            fmt write_subword_fn_3 env;
-            fmt write_subword_fn_4 env;
+            (if needs_star then fmt write_subword_fn_1 env else EmptyString);   (* matches mode: the nonterminal first *)
+            fmtln write_subword_fn_2 env;
+            (if needs_cmd then fmt write_subword_fn_3 env else EmptyString);
+            (if needs_star then fmt write_subword_fn_4 env else EmptyString);
             fmt write_subword_fn_5 env;
-            (if needs_cmd then fmtln write_subword_fn_6 env else EmptyString);
+            fmt write_subword_fn_6 env;
             fmt write_subword_fn_7 env;
-            fmtln write_subword_fn_8 env;
+            (if needs_cmd then fmtln write_subword_fn_8 env else EmptyString);
+            fmt write_subword_fn_9 env;
+            fmtln write_subword_fn_10 env;
             nl ].
 
 Definition tables_of_id (a : alltables) (id : N) : res tables :=
